@@ -116,7 +116,7 @@ class C11(core.Check):
         'string:.byte', 'string:.cstr', 'string:.asciiz', 'string:embedded', 'string:empty', 'terminator:0',
         'terminator:nonzero', 'fill:count-0', 'fill:count-1', 'fill:count-many', 'fill:value-negative', 'fill:value->255',
         'zero:count-0', 'zero:count-many', 'zerountil:below', 'zerountil:just-below', 'zerountil:at', 'zerountil:above',
-        'zero-byte-under-nonzero-image-fill', 'value:char-first-in-list', 'value:char-comma', 'value:char-first-then-operator']}
+        'zero-byte-under-nonzero-image-fill', 'value:char-first-in-list', 'value:char-comma', 'value:char-first-then-operator', 'same-text-two-local-scopes']}
 
     def build(self, rng, force=None, charfirst=False, fillopt=None, i_cf=0):
         endian = rng.choice(['big', 'little'])
@@ -192,6 +192,19 @@ class C11(core.Check):
                               'tags': ['zero:count-' + ('0' if cnt == 0 else '1' if cnt == 1 else 'many')], 'sigk': 'zero'})
             else:
                 lines.append({'k': 'zerountil', 'rel': rng.choice([-2, -1, 0, 1, 2, 3, 17]), 'text': None, 'sigk': 'zerountil'})
+        if not charfirst and rng.random() < 0.5:
+            # the same value text in two places where it means two things: a local label of two regions, a file label
+            w_ = rng.choice([1, 2, 4])
+            d_ = {1: '.byte', 2: '.2byte', 4: '.4byte'}[w_]
+            for reg_ in ('A', 'B'):
+                lines.append({'k': 'label', 'name': f'c11_reg{reg_}', 'text': f'c11_reg{reg_}:'})
+                lines.append({'k': 'data', 'width': w_, 'vals': [('label', f'.here@{reg_}', 0), ('label', f'.here@{reg_}', 1)], 'endian': endian,
+                              'cls': ['label', 'label'], 'text': f'{d_} .here, .here+1',
+                              'tags': [f'{d_}/{endian}', 'value:label', 'same-text-two-local-scopes'], 'sigk': d_})
+                lines.append({'k': 'fill', 'n': 1 if reg_ == 'A' else 3, 'v': 0x77, 'text': '.fill ' + ('1' if reg_ == 'A' else '3') + ', $77',
+                              'tags': [], 'sigk': 'fill'})
+                lines.append({'k': 'label', 'name': f'.here@{reg_}', 'text': '.here:'})
+                lines.append({'k': 'zero', 'n': 1, 'text': '.zero 1', 'tags': [], 'sigk': 'zero'})
         for nm in sorted(future):
             lines.append({'k': 'label', 'name': nm, 'text': nm + ':'})
         lines.append({'k': 'data', 'width': 1, 'vals': [0xEE], 'endian': endian, 'cls': ['plain'], 'text': '.byte $EE',
